@@ -18,8 +18,10 @@ package iview
 
 import (
 	"fmt"
+	"os"
 	"go/constant"
 	"go/token"
+	"go/types"
 	"reflect"
 	"strings"
 	"unsafe"
@@ -37,12 +39,17 @@ type Builder struct {
 
 	cache   map[*ssa.Function]*ssa.Function
 	OrigOf  map[*ssa.Function]*ssa.Function
+	// OrigInstr: instruction of a view -> the source instruction it was copied from (also through
+	// several levels of inlining); lets a rule find "this index expression of helper h" inside the
+	// view of a caller.
+	OrigInstr map[ssa.Instruction]ssa.Instruction
 	Inlined map[*ssa.Function][]string // view -> names of the callees expanded in it
 }
 
 func NewBuilder(p Policy) *Builder {
 	return &Builder{Should: p, MaxDepth: 3, MaxInstr: 400,
-		cache: map[*ssa.Function]*ssa.Function{}, OrigOf: map[*ssa.Function]*ssa.Function{}, Inlined: map[*ssa.Function][]string{}}
+		cache: map[*ssa.Function]*ssa.Function{}, OrigOf: map[*ssa.Function]*ssa.Function{}, Inlined: map[*ssa.Function][]string{},
+		OrigInstr: map[ssa.Instruction]ssa.Instruction{}}
 }
 
 // ---------------------------------------------------------------------------
@@ -160,6 +167,11 @@ func (c *cloner) cloneBlocks(src *ssa.Function, comment string) []*ssa.BasicBloc
 			if v, ok := in.(ssa.Value); ok {
 				c.vm[v] = ni.(ssa.Value)
 			}
+			if o, ok := c.b.OrigInstr[in]; ok {
+				c.b.OrigInstr[ni] = o
+			} else {
+				c.b.OrigInstr[ni] = in
+			}
 			nb.Instrs = append(nb.Instrs, ni)
 		}
 		for _, p := range b.Preds {
@@ -251,7 +263,29 @@ func (b *Builder) expandBody(nf *ssa.Function, fn *ssa.Function) {
 	if len(b.Inlined[nf]) > 0 {
 		dropDeadClosures(nf)
 		finish(nf)
-		if forwardStructLoads(nf) {
+		for i := 0; i < 4 && forwardStructLoads(nf); i++ {
+			finish(nf)
+			if dropDeadStructs(nf) {
+				finish(nf)
+			}
+		}
+		// variables that were cells only because a (now inlined) closure captured them or a (now
+		// inlined) helper took their address become registers again
+		var cand []*ssa.Alloc
+		for _, blk := range nf.Blocks {
+			for _, in := range blk.Instrs {
+				if a, ok := in.(*ssa.Alloc); ok && promotable(a) {
+					if _, isStruct := a.Type().Underlying().(*types.Pointer).Elem().Underlying().(*types.Struct); !isStruct {
+						cand = append(cand, a)
+					}
+				}
+			}
+		}
+		if len(cand) > 0 {
+			mem2reg(nf, cand)
+			finish(nf)
+		}
+		if foldConstIfs(nf) {
 			finish(nf)
 		}
 	}
@@ -259,7 +293,15 @@ func (b *Builder) expandBody(nf *ssa.Function, fn *ssa.Function) {
 	// φ tested in the continuation; route every edge whose outcome is known straight to its target
 	if len(b.Inlined[nf]) > 0 {
 		finish(nf)
-		for i := 0; i < 64 && threadOnce(nf); i++ {
+		nThr := 0
+		for i := 0; i < 600 && threadOnce(nf); i++ {
+			finish(nf)
+			nThr++
+		}
+		if os.Getenv("VERIF_DEBUG_THREAD") != "" {
+			fmt.Fprintf(os.Stderr, "iview: %s: %d threading steps\n", nf.Name(), nThr)
+		}
+		if simplifyPhis(nf) {
 			finish(nf)
 		}
 		if fuseBlocks(nf) {
@@ -564,7 +606,65 @@ func knownTruth(b *ssa.BasicBlock, i int, cond ssa.Value) (truth bool, ok bool) 
 		}
 		return v
 	}
-	nilness := func(v ssa.Value) int { // 0 unknown, 1 nil, 2 non-nil
+	var nilness func(v ssa.Value) int
+	depth := 0
+	nilness = func(v ssa.Value) int { // 0 unknown, 1 nil, 2 non-nil
+		// a merge of values that all have the same nil-ness
+		if phi, ok := v.(*ssa.Phi); ok && phi.Block() != b && depth < 4 && len(phi.Edges) > 0 {
+			depth++
+			defer func() { depth-- }()
+			first := nilness(phi.Edges[0])
+			for _, e := range phi.Edges[1:] {
+				if first == 0 {
+					break
+				}
+				if nilness(e) != first {
+					first = 0
+				}
+			}
+			if first != 0 {
+				return first
+			}
+		}
+		// known from a test of this very value that dominates the incoming edge
+		// (`if err != nil { return nil, nil, err }` inside the inlined callee)
+		from := b.Preds[i]
+		for d, child := from.Idom(), from; d != nil; d, child = d.Idom(), d {
+			if len(d.Instrs) == 0 {
+				continue
+			}
+			ifi, ok := d.Instrs[len(d.Instrs)-1].(*ssa.If)
+			if !ok || d.Succs[0] == d.Succs[1] {
+				continue
+			}
+			bo, ok := ifi.Cond.(*ssa.BinOp)
+			if !ok || (bo.Op != token.EQL && bo.Op != token.NEQ) {
+				continue
+			}
+			var other ssa.Value
+			switch {
+			case bo.X == v:
+				other = bo.Y
+			case bo.Y == v:
+				other = bo.X
+			default:
+				continue
+			}
+			if k, isK := other.(*ssa.Const); !isK || !k.IsNil() {
+				continue
+			}
+			// which successor of d leads to `from`?
+			viaT := (d.Succs[0] == child || d.Succs[0].Dominates(from)) && len(d.Succs[0].Preds) == 1
+			viaF := (d.Succs[1] == child || d.Succs[1].Dominates(from)) && len(d.Succs[1].Preds) == 1
+			if viaT == viaF {
+				continue
+			}
+			isNil := (bo.Op == token.EQL) == viaT
+			if isNil {
+				return 1
+			}
+			return 2
+		}
 		switch x := v.(type) {
 		case *ssa.Const:
 			if x.IsNil() {
@@ -610,13 +710,15 @@ func knownTruth(b *ssa.BasicBlock, i int, cond ssa.Value) (truth bool, ok bool) 
 	return false, false
 }
 
-// threadOnce finds one block that ends in an If whose outcome is known on some incoming edge,
-// duplicates the block for that edge (φ-nodes replaced by the edge values) with a Jump to the
-// known target, and repairs SSA form with φ-nodes at the two targets. Requires up-to-date
-// dominators; the caller re-runs finish afterwards. Returns whether anything changed.
+// threadOnce finds one block B that ends in an If whose outcome is known on some incoming edge and
+// duplicates B for each such edge (φ-nodes replaced by the edge values) with a Jump to the known
+// target. SSA form is re-established generically: every value of B that is used outside B is first
+// spilled to a fresh cell (stored at the end of B, loaded at each use), the copies of B store their
+// own copies, and mem2reg then places the φ-nodes. Requires up-to-date dominators and referrers;
+// returns whether anything changed (the function is finished again before returning).
 func threadOnce(nf *ssa.Function) bool {
 	for _, B := range nf.Blocks {
-		if len(B.Instrs) == 0 || len(B.Preds) < 2 || len(B.Instrs) > 16 {
+		if len(B.Instrs) == 0 || len(B.Preds) < 2 || len(B.Instrs) > 16 || B == nf.Blocks[0] {
 			continue
 		}
 		ifi, ok := B.Instrs[len(B.Instrs)-1].(*ssa.If)
@@ -624,7 +726,7 @@ func threadOnce(nf *ssa.Function) bool {
 			continue
 		}
 		T, F := B.Succs[0], B.Succs[1]
-		if len(T.Preds) != 1 || len(F.Preds) != 1 || T == B || F == B {
+		if T == B || F == B {
 			continue
 		}
 		simple := true
@@ -647,7 +749,7 @@ func threadOnce(nf *ssa.Function) bool {
 			}
 			switch x := v.(type) {
 			case *ssa.Phi:
-				if x.Block() == B && (strings.HasPrefix(x.Comment, "inl.") || x.Comment == "thr") {
+				if x.Block() == B && (strings.HasPrefix(x.Comment, "inl.") || strings.HasPrefix(x.Comment, "thr")) {
 					fromInline = true
 				}
 			case *ssa.BinOp:
@@ -661,7 +763,6 @@ func threadOnce(nf *ssa.Function) bool {
 		if !fromInline {
 			continue
 		}
-		// which edges are decided?
 		var decided []int
 		truth := map[int]bool{}
 		for i := range B.Preds {
@@ -673,12 +774,11 @@ func threadOnce(nf *ssa.Function) bool {
 		if len(decided) == 0 {
 			continue
 		}
-		// a predecessor that reaches B by both of its edges is left alone
 		okPreds := true
 		for _, i := range decided {
 			n := 0
-			for _, s := range B.Preds[i].Succs {
-				if s == B {
+			for _, sc := range B.Preds[i].Succs {
+				if sc == B {
 					n++
 				}
 			}
@@ -689,57 +789,91 @@ func threadOnce(nf *ssa.Function) bool {
 		if !okPreds {
 			continue
 		}
-		// every use of a value defined in B lies in B, or in a block dominated by T or by F
-		usesOK := true
-		for _, in := range B.Instrs {
+		// ---- 1. spill the values of B that are used outside B
+		entry := nf.Blocks[0]
+		var cells []*ssa.Alloc
+		for _, in := range append([]ssa.Instruction(nil), B.Instrs...) {
 			v, isV := in.(ssa.Value)
 			if !isV || v.Referrers() == nil {
 				continue
 			}
+			var outside []ssa.Instruction
 			for _, u := range *v.Referrers() {
-				ub := u.Block()
-				if ub == B {
+				if u.Block() != B {
+					outside = append(outside, u)
+				} else if phi, isPhi := u.(*ssa.Phi); isPhi && phi.Block() == B {
+					outside = append(outside, u) // B is its own predecessor somewhere up: treat as outside
+				}
+			}
+			if len(outside) == 0 {
+				continue
+			}
+			cell := &ssa.Alloc{Comment: "thr.spill"}
+			setField(cell, "typ", types.NewPointer(v.Type()))
+			setField(cell, "block", entry)
+			entry.Instrs = append([]ssa.Instruction{cell}, entry.Instrs...)
+			cells = append(cells, cell)
+			st := &ssa.Store{Addr: cell, Val: v}
+			setField(st, "block", B)
+			B.Instrs = append(B.Instrs[:len(B.Instrs)-1:len(B.Instrs)-1], st, B.Instrs[len(B.Instrs)-1])
+			seen := map[ssa.Instruction]bool{}
+			for _, u := range outside {
+				if seen[u] {
 					continue
 				}
+				seen[u] = true
 				if phi, isPhi := u.(*ssa.Phi); isPhi {
-					// a φ uses its operand on the incoming edge
 					for k, e := range phi.Edges {
-						if e == v {
-							pb := ub.Preds[k]
-							if !(pb == B || T.Dominates(pb) || F.Dominates(pb)) {
-								usesOK = false
-							}
-							if pb == B {
-								usesOK = false // T/F have the single predecessor B: no φ there uses B's values on that edge
-							}
+						if e != v {
+							continue
 						}
+						pb := phi.Block().Preds[k]
+						ld := &ssa.UnOp{Op: token.MUL, X: cell}
+						setField(ld, "typ", v.Type())
+						setField(ld, "block", pb)
+						pb.Instrs = append(pb.Instrs[:len(pb.Instrs)-1:len(pb.Instrs)-1], ld, pb.Instrs[len(pb.Instrs)-1])
+						phi.Edges[k] = ld
 					}
 					continue
 				}
-				if !(T.Dominates(ub) || F.Dominates(ub)) {
-					usesOK = false
+				ld := &ssa.UnOp{Op: token.MUL, X: cell}
+				setField(ld, "typ", v.Type())
+				ub := u.Block()
+				setField(ld, "block", ub)
+				var out []ssa.Instruction
+				for _, x := range ub.Instrs {
+					if x == u {
+						out = append(out, ld)
+					}
+					out = append(out, x)
+				}
+				ub.Instrs = out
+				var rands []*ssa.Value
+				for _, p := range u.Operands(rands) {
+					if *p == v {
+						*p = ld
+					}
 				}
 			}
 		}
-		if !usesOK {
-			continue
-		}
-		// ---- transform
-		type copyOf struct {
-			pred *ssa.BasicBlock
-			to   *ssa.BasicBlock
-			vals map[ssa.Value]ssa.Value // value of B -> value on this path
-		}
-		var copies []copyOf
-		keep := []int{}
+		// ---- 2. one copy of B per decided edge
 		isDecided := map[int]bool{}
 		for _, i := range decided {
 			isDecided[i] = true
 		}
+		var keep []int
 		for i := range B.Preds {
 			if !isDecided[i] {
 				keep = append(keep, i)
 			}
+		}
+		edgeIndex := func(blk, pred *ssa.BasicBlock) int {
+			for k, p := range blk.Preds {
+				if p == pred {
+					return k
+				}
+			}
+			return -1
 		}
 		var newBlocks []*ssa.BasicBlock
 		for _, i := range decided {
@@ -772,21 +906,31 @@ func threadOnce(nf *ssa.Function) bool {
 					}
 				}
 			}
-			// φ values may themselves be φs of B (swap problem does not arise: edge values are from preds)
 			j := &ssa.Jump{}
 			setField(j, "block", nb)
 			nb.Instrs = append(nb.Instrs, j)
 			nb.Preds = []*ssa.BasicBlock{pred}
 			nb.Succs = []*ssa.BasicBlock{target}
-			for k, s := range pred.Succs {
-				if s == B {
+			for k, sc := range pred.Succs {
+				if sc == B {
 					pred.Succs[k] = nb
 				}
 			}
-			copies = append(copies, copyOf{nb, target, vals})
+			// the target gains a predecessor: its φ-nodes take, on the new edge, what they took from B
+			bi := edgeIndex(target, B)
+			target.Preds = append(target.Preds, nb)
+			for _, in := range target.Instrs {
+				if phi, isPhi := in.(*ssa.Phi); isPhi {
+					e := phi.Edges[bi]
+					if r, ok := vals[e]; ok {
+						e = r
+					}
+					phi.Edges = append(phi.Edges, e)
+				}
+			}
 			newBlocks = append(newBlocks, nb)
 		}
-		// shrink B to the undecided edges
+		// ---- 3. B keeps the undecided edges
 		for _, in := range B.Instrs {
 			if phi, isPhi := in.(*ssa.Phi); isPhi {
 				var e []ssa.Value
@@ -801,125 +945,133 @@ func threadOnce(nf *ssa.Function) bool {
 			np = append(np, B.Preds[i])
 		}
 		B.Preds = np
-		// new predecessor lists and repair φs at T and F
-		for _, target := range []*ssa.BasicBlock{T, F} {
-			var preds []*ssa.BasicBlock
-			if len(keep) > 0 {
-				preds = append(preds, B)
-			}
-			var mine []copyOf
-			for _, cp := range copies {
-				if cp.to == target {
-					preds = append(preds, cp.pred)
-					mine = append(mine, cp)
-				}
-			}
-			if len(preds) == 0 {
-				target.Preds = nil // unreachable now; pruned by finish
-				continue
-			}
-			// values of B used under this target
-			var phis []ssa.Instruction
-			for _, in := range B.Instrs {
-				v, isV := in.(ssa.Value)
-				if !isV || v.Referrers() == nil {
-					continue
-				}
-				var users []ssa.Instruction
-				for _, u := range *v.Referrers() {
-					ub := u.Block()
-					if ub == B {
-						continue
-					}
-					if phi, isPhi := u.(*ssa.Phi); isPhi {
-						for k, e := range phi.Edges {
-							if e == v && target.Dominates(ub.Preds[k]) {
-								users = append(users, u)
-							}
-						}
-						continue
-					}
-					if target.Dominates(ub) {
-						users = append(users, u)
-					}
-				}
-				if len(users) == 0 {
-					continue
-				}
-				var repl ssa.Value
-				if len(preds) == 1 {
-					if len(keep) > 0 {
-						repl = v
-					} else {
-						repl = mine[0].vals[v]
-					}
-				} else {
-					phi := &ssa.Phi{Comment: "thr"}
-					if len(keep) > 0 {
-						phi.Edges = append(phi.Edges, v)
-					}
-					for _, cp := range mine {
-						phi.Edges = append(phi.Edges, cp.vals[v])
-					}
-					setField(phi, "block", target)
-					setField(phi, "typ", v.Type())
-					setField(phi, "pos", v.Pos())
-					phis = append(phis, phi)
-					repl = phi
-				}
-				if repl == nil {
-					panic("iview: threading lost a value")
-				}
-				if repl != v {
-					for _, u := range users {
-						if uphi, isPhi := u.(*ssa.Phi); isPhi {
-							for k, e := range uphi.Edges {
-								if e == v && target.Dominates(u.Block().Preds[k]) {
-									uphi.Edges[k] = repl
-								}
-							}
-							continue
-						}
-						var rands []*ssa.Value
-						for _, p := range u.Operands(rands) {
-							if *p == v {
-								*p = repl
-							}
-						}
-					}
-				}
-			}
-			target.Instrs = append(phis, target.Instrs...)
-			target.Preds = preds
-		}
-		// B without predecessors disappears
-		var blocks []*ssa.BasicBlock
-		for _, x := range nf.Blocks {
-			if x == B && len(keep) == 0 {
-				continue
-			}
-			blocks = append(blocks, x)
-			if x == B || (len(keep) == 0 && false) {
-				continue
-			}
-		}
-		// place the copies after their predecessor-independent position: right before T
 		var out []*ssa.BasicBlock
-		placed := false
-		for _, x := range blocks {
-			if (x == T || x == F) && !placed {
-				out = append(out, newBlocks...)
-				placed = true
-			}
+		for _, x := range nf.Blocks {
 			out = append(out, x)
-		}
-		if !placed {
-			out = append(out, newBlocks...)
+			if x == B {
+				out = append(out, newBlocks...)
+			}
 		}
 		nf.Blocks = out
+		// ---- 4. back to SSA
+		finish(nf) // prunes B if it lost all its predecessors, rebuilds dominators and referrers
+		var live []*ssa.Alloc
+		for _, c := range cells {
+			if c.Block() != nil && promotable(c) {
+				live = append(live, c)
+			} else if refs := c.Referrers(); refs == nil || len(*refs) == 0 {
+				removeInstr(entry, map[ssa.Instruction]bool{c: true})
+			}
+		}
+		mem2reg(nf, live)
+		finish(nf)
 		return true
 	}
 	return false
+}
+
+// foldConstIfs replaces an If on a boolean constant (what remains of `if !found` when an inlined
+// function literal always returns true) by a Jump; the edge not taken is removed, unreachable code
+// is pruned by finish.
+func foldConstIfs(nf *ssa.Function) bool {
+	changed := false
+	for _, b := range nf.Blocks {
+		if len(b.Instrs) == 0 || len(b.Succs) != 2 {
+			continue
+		}
+		ifi, ok := b.Instrs[len(b.Instrs)-1].(*ssa.If)
+		if !ok || b.Succs[0] == b.Succs[1] {
+			continue
+		}
+		cond, neg := ifi.Cond, false
+		for {
+			u, isU := cond.(*ssa.UnOp)
+			if !isU || u.Op != token.NOT {
+				break
+			}
+			cond, neg = u.X, !neg
+		}
+		k, isK := cond.(*ssa.Const)
+		if !isK || k.Value == nil || k.Value.Kind() != constant.Bool {
+			continue
+		}
+		truth := constant.BoolVal(k.Value) != neg
+		taken, dead := b.Succs[0], b.Succs[1]
+		if !truth {
+			taken, dead = dead, taken
+		}
+		j := &ssa.Jump{}
+		setField(j, "block", b)
+		b.Instrs[len(b.Instrs)-1] = j
+		b.Succs = []*ssa.BasicBlock{taken}
+		for i := 0; i < len(dead.Preds); i++ {
+			if dead.Preds[i] == b {
+				dead.Preds = append(dead.Preds[:i:i], dead.Preds[i+1:]...)
+				for _, in := range dead.Instrs {
+					if phi, ok := in.(*ssa.Phi); ok {
+						phi.Edges = append(phi.Edges[:i:i], phi.Edges[i+1:]...)
+					}
+				}
+				break
+			}
+		}
+		changed = true
+	}
+	return changed
+}
+
+// simplifyPhis replaces φ-nodes whose operands are all one value (or the φ itself) by that value.
+func simplifyPhis(nf *ssa.Function) bool {
+	changed := false
+	for again := true; again; {
+		again = false
+		for _, b := range nf.Blocks {
+			for _, in := range b.Instrs {
+				phi, ok := in.(*ssa.Phi)
+				if !ok {
+					continue
+				}
+				var only ssa.Value
+				same := true
+				for _, e := range phi.Edges {
+					if e == ssa.Value(phi) {
+						continue
+					}
+					if only == nil {
+						only = e
+					} else if only != e {
+						same = false
+					}
+				}
+				if !same || only == nil {
+					continue
+				}
+				for _, blk := range nf.Blocks {
+					for _, u := range blk.Instrs {
+						var rands []*ssa.Value
+						for _, p := range u.Operands(rands) {
+							if *p == ssa.Value(phi) {
+								*p = only
+							}
+						}
+					}
+				}
+				kept := b.Instrs[:0:0]
+				for _, x := range b.Instrs {
+					if x != ssa.Instruction(phi) {
+						kept = append(kept, x)
+					}
+				}
+				b.Instrs = kept
+				again, changed = true, true
+				break
+			}
+			if again {
+				break
+			}
+		}
+	}
+	return changed
 }
 
 // fuseBlocks merges a block that ends in a Jump into its successor when that successor has no
